@@ -85,6 +85,11 @@ impl Transaction {
     pub fn outputs(&self) -> (r: &[Output]) ensures r@.len() == tx_num_outputs(*self), r@ == body_outputs(self.body) { unimplemented!() }
     #[verifier::external_body]
     pub fn fee(&self) -> (r: u64) ensures r == tx_fee_total(*self) { unimplemented!() }
+    // FeeFields::new(fee_shift, fee): Err when the total fee is zero or does not fit 40 bits
+    #[verifier::external_body]
+    pub fn aggregate_fee_fields(&self) -> (r: Result<FeeFields, transaction::Error>)
+        ensures (r is Ok) == (0 < tx_fee_total(*self) < 0x100_0000_0000)
+    { unimplemented!() }
     #[verifier::external_body]
     pub fn replace_kernel(self, k: TxKernelFull) -> (r: Transaction)
         ensures r == spec_replace_kernel(self, k), tx_kernels(r) == seq![k], tx_num_inputs(r) == tx_num_inputs(self),
